@@ -83,6 +83,8 @@ def case(draw):
             "ignored_top": draw(st.integers(0, 7)) == 0,
             # the existing header's comment block also quotes a notice inside an ignore block; --merge-copyrights
             "ignored_in_header": draw(st.integers(0, 3)) == 0, "merge": draw(st.integers(0, 3)) == 0,
+            # the existing header names LicenseRef-acme, the request LicenseRef-ACME: two licences (identifiers are case-sensitive)
+            "twin": draw(st.integers(0, 3)) == 0,
             "mirror": draw(st.integers(0, 5)) == 0, "bincontent": draw(st.sampled_from(["nonutf8", "controls"]))}
 
 
@@ -105,6 +107,9 @@ def check(ctx, c, table_walk=False):
             if set(marker) <= set("-."):
                 req = dict(req, licences=req["licences"] + ["LicenseRef-vendor" + marker[::-1]])
     existing = c["existing"]
+    if c.get("twin") and existing:
+        existing = dict(existing, lic=list(existing["lic"]) + ["LicenseRef-acme"])
+        req = dict(req, licences=[x for x in req["licences"] if x != "LicenseRef-ACME"] + ["LicenseRef-ACME"])
     root = ctx.fresh_dir()
     try:
         AN.install_templates(root, used_style)
@@ -133,13 +138,21 @@ def check(ctx, c, table_walk=False):
                         ctx.label("existing:ignore-block-inside-header")
         if c.get("ignored_top") and not c["binary"] and not to_dotlicense and not existing and used_style:
             lines = ["REUSE-IgnoreStart", "SPDX-FileCopyrightText: 1999 Ignored Holder", "SPDX-License-Identifier: LicenseRef-ignored", "REUSE-IgnoreEnd"]
-            if len(name) % 2:
+            variant = len(name) % 3
+            if variant == 1:
                 # a stray end marker first (prose that mentions it), then a block that is never closed
                 lines = ["this text mentions REUSE-IgnoreEnd", "REUSE-IgnoreStart", "SPDX-FileCopyrightText: 1999 Ignored Holder", "SPDX-License-Identifier: LicenseRef-ignored"]
-            blk = S.wrap_single(used_style, lines) if S.has_single(used_style) and (c["line"] != "multi" or not S.has_multi(used_style)) else S.wrap_block(used_style, lines)
+
+            def wrap(ls):
+                return S.wrap_single(used_style, ls) if S.has_single(used_style) and (c["line"] != "multi" or not S.has_multi(used_style)) else S.wrap_block(used_style, ls)
+
+            blk = wrap(lines)
             b = c["body"] if not c["body"].startswith("#!") else "print('x')\n"
             content = "\n".join(blk) + "\n" + (b or "code();\n")
-            ctx.label("existing:ignore-block-on-top")
+            if variant == 2:
+                # two closed ignore blocks in two comments, the second one further down: neither is a header
+                content += "\n" + "\n".join(wrap(["REUSE-IgnoreStart", "Copyright (C) 1998 Ignored Holder", "REUSE-IgnoreEnd"])) + "\nmore_code();\n"
+            ctx.label(f"existing:ignore-block-on-top:{('closed', 'stray-end-then-open', 'two-blocks')[variant]}")
         files = {name: content}
         if existing and to_dotlicense:
             files[name + ".license"] = P.header_text("none", existing["cop"], existing["lic"], existing["con"], body="")
